@@ -4,6 +4,7 @@ from sa.report import Check
 from sa.rules import cpp_rules as C
 from sa.rules import write_rules as W
 from sa.rules import window_rules as WN
+from sa.rules import cpprange as CR
 
 
 def main(tier):
@@ -18,11 +19,13 @@ def main(tier):
             "inverse synthesised for `let x = y + c`, `y - c`, `c - y` is the algebraic inverse, decided by evaluating "
             "the constructed Function(op, args) as a linear form over {value, other} (R-INVERSE); the virtual write "
             "template tests CouldWriteValue before forwarding and forwards the transformed value (R-VWRITE); a virtual field is made a plain alias only on paths where it was found to carry no [requires] of its own (R-ALIASGUARD, guard dominance); every OffsetBitBlock method that touches the underlying block applies the window's offset_ (R-WINDOW). "
-            "Not decided: exact accept/reject boundaries, neighbour-bit preservation."))
+            "The constants CouldWriteValue compares the value with (UIntView, IntView, BcdView via MaxBcd, EnumView) are folded with a typed C++ constant folder (promotions, conversions, modular arithmetic, undefined behaviour reported) for every width 1..64 and equal the language-level ranges; the masks of MaskToNBits and OffsetBitBlock::MaskInValue are folded for every (width, offset, size) and keep exactly the bits outside the field (R-CPPRANGE). "
+            "Not decided: the value-dependent parts (Parameters::ValueIsOk, the conversions ConvertToBcd/ConvertToSigned), byte-level effects."))
     chk.run("R-SIBLING", C.sibling, cx.cpp, floor=80, control=lambda: cx.cpp_control)
     chk.run("R-TWIN", C.twin, cx.cpp, floor=40)
     chk.run("R-INVERSE", W.inverse, cx.repo, floor=3, control=lambda: W.control(cx.repo))
     chk.run("R-VWRITE", W.vwrite, cx.repo, cx.templates, floor=3)
     chk.run("R-ALIASGUARD", W.aliasguard, cx.repo, floor=1)
     chk.run("R-WINDOW", WN.window, cx.cpp, floor=5)
+    chk.run("R-CPPRANGE", CR.cpprange, cx.cpp, floor=2000)
     return chk.finish()
